@@ -179,7 +179,8 @@ Lemma len_field f k : wf_field f = true -> length k < length (pr_field f k).
 Proof.
   intros Hw. unfold wf_field in Hw. bsplit Hw. unfold pr_field. rewrite app_length.
   assert (Nid : negb (is_nil (cf_id f)) = true) by assumption. destruct (cf_id f); [discriminate|]. cbn [length].
-  match goal with |- _ < _ + length ?X => assert (L : length k <= length X) by (apply sfx_len; repeat sfx_step) end. lia.
+  match goal with |- _ < _ + length ?X => assert (L : length k <= length X) by (apply sfx_len; repeat sfx_step) end.
+  clear - L. lia.
 Qed.
 
 Lemma fields_follow fs c k : wf_fields fs = true -> (c = x7d \/ c = x29) ->
